@@ -122,6 +122,19 @@ CHECKS = {
             "Generated signatures (1-6 arguments, every delimiter kind and type, *, =) x conforming calls rendered from generated values (nested groups/brackets, brackets hidden in braces, optionals present/absent, continuation text): every name bound to its value, argSource and the exact remaining text checked, parameter-enable switch balanced; the same through TeX.readArgument directly. Structurally generated integer/dimension/glue literals (sign runs, four radices, character constants, fractions, 11 units, true, fil orders, registers) followed by arbitrary tokens compared with models/texnum.py (integers and fil order exactly, dimensions within 2 sp of TeX's or of the exact value) including what is left unconsumed. Exploration.",
             "Trusted: models/texnum.py (tex.web 102-107, 404-462 in integer/Fraction arithmetic); em/ex estimates and register defaults read from plasTeX as data. Seven known findings listed (number look-ahead executes the next token, \\value as digits, integer registers as coefficients, macro-produced keywords, 'fil l'), excluded by construction.",
             "DESIGN.md C05"),
+
+    "C02": ("hypothesis",
+            "exploration",
+            "differential property testing: generated macro programs evaluated by plasTeX and by an independent mini-TeX expander (reference model)",
+            "Grammar-built, recursion-free programs (\\def/\\gdef with 0-9 delimited/undelimited parameters, ## nesting, \\newcommand/\\renewcommand with optional arguments, \\let, \\csname, \\expandafter, groups) inside the stated normal form: the visible text (whitespace removed) must equal the output of models/minitex.py on the same source, and the context depth must be restored. Exploration.",
+            "Trusted: models/minitex.py (own lexer + tex.web 391-399 parameter matching, save stack), self-tested on TeXbook examples. Normal form of DESIGN.md C02. Known finding listed: character \\let aliases are resolved by the tokenizer (excluded by construction).",
+            "DESIGN.md C02"),
+    "C03": ("hypothesis",
+            "exploration",
+            "property-based testing with two independent oracles that must agree (AST-level branch predictor and the mini-TeX evaluator); side-effect probes in every branch",
+            "Generated nestings (depth <= 4) of \\iftrue/\\iffalse/\\ifnum/\\ifdim/\\ifodd/\\ifcase (selectors -2..arms+2)/\\ifx/\\ifdefined/\\newif switches, in groups, macro bodies and arguments, every branch carrying a unique marker and a counter probe: plasTeX's text, all probe counters, absence of exceptions and context depth must equal the prediction. Exploration.",
+            "Trusted: the AST predictor and models/minitex.py (they are cross-checked on every case; a disagreement is a harness error). Operand normal form of DESIGN.md C03. Known finding listed: \\newif setters are not local to a group (\\global being a no-op, a repair would break \\global\\footrue).",
+            "DESIGN.md C03"),
 }
 
 PENDING_REASON = "check not built yet in this session (planned, see DESIGN.md section 7); nothing is claimed for it"
